@@ -2620,17 +2620,154 @@ def replay_library(a):
     return {"reproduced": bool(out), "mismatches": out[:2], "cases": list(cases)}
 
 
+def report_combine_union(a):
+    """FileReport::combine: the combined report is the union of the two reports, list by list"""
+    FR = struct_fields(a.src, "rules/eval_context.rs", "FileReport")
+    ex = a.exec(r"(?:(?:rules::)?eval_context::)?<impl at guard/src/rules/eval_context\.rs:\d+:\d+: \d+:\d+>::combine",
+                {"and": lambda ex, av: ("enum", "Status", ex.fresh("Int", "andst"), {}), "ne": lambda ex, av: ex.havoc("bool"),
+                 "eq": lambda ex, av: ex.havoc("bool")},
+                log=("extend", "and"), unroll=1, max_paths=200, first_arg_re=r"_1: &mut (?:eval_context::)?FileReport")
+    a.fns.append("rules::eval_context::FileReport::combine")
+    me, other = ex.arg_env["_1"], ex.arg_env["_2"]
+    bad = []
+    for p in ex.paths:
+        if p.outcome == "panic":
+            continue                      # different names: "Incompatible to merge" (decided by the Kani K4 harness: never for equal names)
+        exts = calls(p, "extend")
+        probs = []
+        seen = {}
+        for e in exts:
+            tgt, src = e[2][0], e[2][1]
+            tname = next((n for n in FR if same(tgt, field(ex, me, FR.index(n), "?"))), None)
+            sname = next((n for n in FR if same(src, field(ex, other, FR.index(n), "?"))), None)
+            if tname is None or sname is None or tname != sname:
+                probs.append(f"a list is extended with something other than the other report's list of the same name ({tname} <- {sname})")
+            else:
+                seen[tname] = seen.get(tname, 0) + 1
+        for n in ("not_compliant", "compliant", "not_applicable"):
+            if seen.get(n) != 1:
+                probs.append(f"`{n}` of the other report is not added exactly once, unfiltered")
+        ands = calls(p, "and")
+        if not (len(ands) == 1 and ands[0][2][0][0] == "enum" and ands[0][2][1][0] == "enum"):
+            probs.append("the status is not combined with Status::and")
+        bad.append(pc_term(p.pc) if probs else "false")
+    c = a.discharge("FileReport::combine/union", ex, bad,
+                    "combining two reports of one data file: each of not_compliant / compliant / not_applicable receives the WHOLE corresponding "
+                    "list of the other report (no entry filtered by what the accumulated report already holds, so the result does not depend "
+                    "on the order of combination), the status is Status::and of the two", witness=False)
+    if c:
+        c["replay"] = replay_combine_order(a)
+        c["reproduced"] = c["replay"].get("reproduced", False)
+        a.candidates.append(c)
+
+
+def replay_combine_order(a):
+    """two rules files defining a rule of the same name with different statuses, against one data file, in both orders and
+    alone: the combined structured report lists the union of the single reports, whatever the order"""
+    import itertools, os, shutil, subprocess, tempfile
+    exe = a.cli()
+    if not exe:
+        return {"reproduced": False, "note": "native build failed"}
+    defs = {"PASS": "rule same {\n  a == 1\n}\n", "FAIL": "rule same {\n  a == 2\n}\n", "SKIP": "rule same when a == 2 {\n  a == 1\n}\n"}
+    d = tempfile.mkdtemp(prefix="cfnverif_replay_")
+    env = dict(os.environ)
+    env["RUST_BACKTRACE"] = "0"
+    out, tried = [], []
+
+    def run(files):
+        args = [exe, "validate", "--structured", "-o", "json", "--show-summary", "none", "-d", "d.json"]
+        for f in files:
+            args += ["-r", f]
+        pr = subprocess.run(args, cwd=d, capture_output=True, text=True, env=env, timeout=60)
+        try:
+            r = json.loads(pr.stdout)[0]
+            return (r.get("status"), tuple(sorted(r.get("compliant", []))), tuple(sorted(r.get("not_applicable", []))),
+                    tuple(sorted(x["Rule"]["name"] for x in r.get("not_compliant", []) if "Rule" in x)), pr.returncode)
+        except Exception:
+            return None
+    try:
+        open(os.path.join(d, "d.json"), "w").write('{"a":\n 1}\n')
+        for s1, s2 in itertools.permutations(("PASS", "FAIL", "SKIP"), 2):
+            open(os.path.join(d, "x.guard"), "w").write(defs[s1])
+            open(os.path.join(d, "y.guard"), "w").write(defs[s2])
+            one, two, xy, yx = run(["x.guard"]), run(["y.guard"]), run(["x.guard", "y.guard"]), run(["y.guard", "x.guard"])
+            if None in (one, two, xy, yx):
+                tried.append({"statuses": [s1, s2], "problem": "no report"})
+                continue
+            union = tuple(tuple(sorted(set(one[i]) | set(two[i]))) for i in (1, 2, 3))
+            ok = xy[1:4] == union and yx[1:4] == union and xy == yx
+            tried.append({"statuses": [s1, s2], "ok": ok})
+            if not ok:
+                out.append({"x.guard": defs[s1], "y.guard": defs[s2], "alone": [str(one), str(two)], "x then y": str(xy), "y then x": str(yx)})
+        return {"reproduced": bool(out), "mismatches": out[:3], "tried": tried,
+                "note": "; ".join(str(t["statuses"]) + ": " + t["problem"] for t in tried if "problem" in t) or None}
+    finally:
+        shutil.rmtree(d, ignore_errors=True)
+
+
+def rulegen_unwrap(a):
+    """rulegen: gen_rules must not unwrap something a template can make absent (a resource without a string `Type`)"""
+    ex = a.exec(r"(?:commands::rulegen::)?gen_rules",
+                {"next": mirexec.m_iter_next, "into_iter": mirexec.m_new_iter, "iter": mirexec.m_new_iter, "from_value": m_result_opq,
+                 "as_str": mirexec.m_option, "index": lambda ex, av: ex.opq(), "clone": mirexec.m_identity,
+                 "contains_key": lambda ex, av: ex.havoc("bool"), "is_string": lambda ex, av: ex.havoc("bool"),
+                 "insert": lambda ex, av: ex.opq(), "collect": lambda ex, av: ex.opq(), "new": lambda ex, av: ex.opq()},
+                log=("unwrap", "get_mut", "expect"), unroll=1, max_paths=20000)
+    a.fns.append("commands::rulegen::gen_rules")
+    bad, nun = [], 0
+    for p in ex.paths:
+        for e in p.events:
+            if e[0] == "call" and e[1] in ("unwrap", "expect") and e[2] and e[2][0][0] == "enum" and e[2][0][1] == "Option":
+                src = e[2][0]
+                # an Option produced by Value::as_str on template content: absent whenever the template says so
+                came_from_as_str = any(x[0] == "call" and x[1] == "as_str" and x[3] == src for x in p.events)
+                if came_from_as_str:
+                    nun += 1
+                    bad.append(f"(and {pc_term(p.pc)} (= {src[2]} 0))")
+    c = a.discharge("rulegen/gen_rules/no-unwrap-of-template-content", ex, bad,
+                    f"gen_rules, one resource x one property ({nun} unwrap sites on `as_str()` results): no path unwraps the result of reading a "
+                    "template field as a string while that result can be None (a resource whose Type is missing or not a string)", witness=True)
+    if c:
+        c["replay"] = replay_rulegen_odd_templates(a)
+        c["reproduced"] = c["replay"].get("reproduced", False)
+        a.candidates.append(c)
+
+
+def replay_rulegen_odd_templates(a):
+    import os, shutil, subprocess, tempfile
+    exe = a.cli()
+    if not exe:
+        return {"reproduced": False, "note": "native build failed"}
+    templates = {"resource without Type": '{"Resources": {"a": {"Properties": {"x": 1}}}}',
+                 "numeric Type": '{"Resources": {"a": {"Type": 5, "Properties": {"x": 1}}}}',
+                 "null Type": '{"Resources": {"a": {"Type": null, "Properties": {"x": 1}}, "b": {"Type": "AWS::X::Y", "Properties": {"x": 1}}}}',
+                 "ordinary": '{"Resources": {"b": {"Type": "AWS::X::Y", "Properties": {"x": 1}}}}'}
+    d = tempfile.mkdtemp(prefix="cfnverif_replay_")
+    env = dict(os.environ)
+    env["RUST_BACKTRACE"] = "0"
+    out = []
+    try:
+        for label, t in templates.items():
+            open(os.path.join(d, "t.json"), "w").write(t)
+            pr = subprocess.run([exe, "rulegen", "-t", "t.json"], cwd=d, capture_output=True, text=True, env=env, timeout=60)
+            if pr.returncode == 101 or "panicked" in pr.stderr:
+                out.append({"template": t, "case": label, "exit": pr.returncode, "stderr": pr.stderr[-200:]})
+        return {"reproduced": bool(out), "mismatches": out[:3]}
+    finally:
+        shutil.rmtree(d, ignore_errors=True)
+
+
 
 SITES = {
     "C06": [structured_report, structured_parse_closure, junit_exit_code, junit_test_case, junit_report, validate_execute_step, test_generic_report],
-    "C12": [structured_report, junit_test_case, data_input_wiring, data_input_params_wiring, structured_merge_closure, test_get_by_result, test_structured_evaluate],
+    "C12": [structured_report, junit_test_case, data_input_wiring, data_input_params_wiring, structured_merge_closure, test_get_by_result, test_structured_evaluate, report_combine_union],
     "C07": [flags_verdict_wiring, reporter_chain, library_entry_wiring, structured_report, junit_test_case, validate_execute_step,
             data_input_params_wiring, structured_merge_closure],
     "C16": [test_generic_report, test_get_by_result, test_get_by_rules, test_structured_evaluate],
-    "C09": [report_partition, report_rule_listing],
+    "C09": [report_partition, report_rule_listing, report_combine_union],
     "C15": [scope_resolution, param_rule_call, param_ctx_resolve],
     "C04": [rule_status_semantics],
     "C01": [rule_status_semantics],
     "C17": [merge_map, merge_unwrap, param_files_fold_step, data_input_params_wiring, structured_merge_closure],
-    "C08": [merge_unwrap],
+    "C08": [merge_unwrap, rulegen_unwrap],
 }
